@@ -150,6 +150,26 @@ func Load(cfg LoadCfg) (*Ctx, error) {
 		recvAlias[rel+"|"+now] = k[strings.Index(k, "|")+1:]
 	}
 	identNow := c.IdentNow
+	if ov, ns := restoreLockWrappers(c, known); len(ov) > 0 {
+		cfg2 := c.Cfg
+		cfg2.Overlay = map[string][]byte{}
+		for k, v := range c.Cfg.Overlay {
+			cfg2.Overlay[k] = v
+		}
+		for k, v := range ov {
+			cfg2.Overlay[k] = v
+		}
+		if c2, err := loadRaw(cfg2); err == nil {
+			c = c2
+			c.IdentNow = identNow
+			expandedAny = true
+			notes = append(notes, ns...)
+		} else {
+			notes = append(notes, fmt.Sprintf("expanding lock wrappers abandoned (the rewritten source does not load: %.300s); analysing the tree as it is", err.Error()))
+		}
+	} else {
+		notes = append(notes, ns...)
+	}
 	if ov, ns := restoreOutFields(c, known); len(ov) > 0 {
 		cfg2 := c.Cfg
 		cfg2.Overlay = map[string][]byte{}
